@@ -1,3 +1,4 @@
 import NasdaqModel.Driver.Loop
 import NasdaqModel.Driver.Soup
-def main : IO Unit := NasdaqModel.Driver.mainLoop [NasdaqModel.Driver.SoupD.handle]
+import NasdaqModel.Driver.SoupVia
+def main : IO Unit := NasdaqModel.Driver.mainLoop [NasdaqModel.Driver.SoupD.handle, NasdaqModel.Driver.SoupViaD.handle]
